@@ -300,6 +300,8 @@ class DetectReadsWritesCalls( DetectVarNames ):
 
     for x in node.args:
       self.visit( x )
+    for x in node.keywords:
+      self.visit( x.value )
 
   def visit_For( self, node ):
     self.current_op = 'for'
